@@ -60,13 +60,27 @@ Proof.
 Qed.
 
 (* ---------------------------------------------------------------- per-channel invariant *)
+Definition nonempty_unit (u : qunit) : Prop := 1 <= ubytes u.
+
+Lemma Forall_skipn_ : forall (A : Type) (P : A -> Prop) n (l : list A), Forall P l -> Forall P (skipn n l).
+Proof.
+  intros A P. induction n; intros l H; [exact H|]. destruct l; [constructor|].
+  cbn. inversion H; subst. apply IHn. assumption.
+Qed.
+
+Section Guard.
+(** [W]: what is assumed of the initial world (instantiated with [world_in_bytes w] for the first
+    theorem and with [False] for the life-cycle theorem, which needs nothing) *)
+Variable W : Prop.
+
 Definition cinv (accept : nat -> chan -> bool) (c : chan) : Prop :=
-  accept_empty accept ->
+  accept_empty accept -> W ->
   queue_kind (c_kind c) = true ->
-  count_wake (c_q c) <= c_since c /\ (1 <= c_since c -> c_q c <> []).
+  count_wake (c_q c) <= c_since c /\ (1 <= c_since c -> c_q c <> []) /\
+  (c_kind c = KDgram -> Forall nonempty_unit (c_q c)).
 
 Lemma cinv_invalid : forall accept, cinv accept invalid_chan.
-Proof. intros accept _ H. discriminate H. Qed.
+Proof. intros accept _ _ H. discriminate H. Qed.
 
 Lemma count_wake_app : forall a b, count_wake (a ++ b) = count_wake a + count_wake b.
 Proof. intros. unfold count_wake. rewrite filter_app, app_length. reflexivity. Qed.
@@ -80,12 +94,14 @@ Qed.
 
 Lemma cinv_drain : forall accept n c, cinv accept c -> cinv accept (drain n c).
 Proof.
-  intros accept n c H HA K. unfold drain in K |- *. cbn [c_kind c_q c_since] in K |- *.
-  specialize (H HA K). destruct H as [H1 H2].
+  intros accept n c H HA HW K. unfold drain in K |- *. cbn [c_kind c_q c_since] in K |- *.
+  specialize (H HA HW K). destruct H as (H1 & H2 & H3).
   pose proof (count_wake_skipn n (c_q c)) as P.
+  assert (F : c_kind c = KDgram -> Forall nonempty_unit (skipn n (c_q c))).
+  { intro D. apply Forall_skipn_. auto. }
   destruct (skipn n (c_q c)) eqn:E.
-  - split; [apply Nat.le_refl|]. intros X. inversion X.
-  - split; [lia|intros _; discriminate].
+  - split; [apply Nat.le_refl|]. split; [intros X; inversion X|exact F].
+  - split; [lia|]. split; [intros _; discriminate|exact F].
 Qed.
 
 Lemma app_one_not_nil : forall (A : Type) (q : list A) (u : A), q ++ [u] <> [].
@@ -101,10 +117,10 @@ Lemma cinv_wake : forall accept clk c m,
   cinv accept (bump (apply_write (sys_result accept clk c (fst (fst (wake_arm m))) (snd (fst (wake_arm m))) (snd (wake_arm m)))
                           (snd (fst (wake_arm m))) c)).
 Proof.
-  intros accept clk c m HC HP HA K.
+  intros accept clk c m HC HP HA HW K.
   assert (K' : queue_kind (c_kind c) = true).
   { revert K. unfold bump, apply_write. cbn. destruct (sys_result _ _ _ _ _ _); cbn; auto. }
-  destruct (HC HA K') as [H1 H2].
+  destruct (HC HA HW K') as (H1 & H2 & H3).
   assert (NE : accept clk c = false -> c_q c <> []).
   { intros EA Q. rewrite (HA clk c Q) in EA. discriminate. }
   destruct m; cbn [wake_arm fst snd]; unfold sys_result;
@@ -114,10 +130,11 @@ Proof.
     (destruct (accept clk c) eqn:EA;
      [ unfold bump, apply_write; cbn [c_kind c_q c_since]; rewrite EK;
        rewrite units_of_one by reflexivity; rewrite count_wake_app; unfold count_wake at 2; cbn; split; [lia|];
-       intros _; apply app_one_not_nil
+       split; [intros _; apply app_one_not_nil|];
+       intro D; first [discriminate D | apply Forall_app; split; [auto|constructor; [unfold nonempty_unit; cbn; lia|constructor]]]
      | specialize (NE eq_refl); unfold wait_or_again;
        match goal with |- context [if ?b then WAgain else WBlocks] => destruct b end;
-       cbn; (split; [lia|auto]) ]).
+       cbn; rewrite ?EK; (split; [lia|split; [auto|intro D; first [discriminate D | auto]]]) ]).
 Qed.
 
 (* ---------------------------------------------------------------- facts read off the extracted data *)
@@ -161,16 +178,6 @@ Proof.
   destruct c as [k nb q si fo ofl oe cap]. cbn [c_kind c_nonblock c_fcntl_ok].
   destruct fo; destruct k; destruct nb; vm_compute; intro H; inversion H; subst;
     repeat split; discriminate.
-Qed.
-
-Lemma probe_cinv : forall accept r c, cinv accept c -> cinv accept (apply_write r (snd (fst rr_probe)) c).
-Proof.
-  intros accept r c H HA K. destruct r; try exact (H HA K).
-  unfold apply_write in *. cbn [c_kind c_q c_since] in *. destruct (H HA K) as [H1 H2].
-  destruct (c_kind c); try discriminate K; cbn [rr_probe fst snd units_of Z.eqb Z.to_nat repeat].
-  - rewrite app_nil_r. auto.
-  - rewrite app_nil_r. auto.
-  - rewrite count_wake_app. split; [unfold count_wake at 2; cbn; lia|]. intros _. apply app_one_not_nil.
 Qed.
 
 (* ---------------------------------------------------------------- registrations *)
@@ -323,16 +330,10 @@ Proof.
   intros accept clk c len fl H K. unfold sys_result in H. rewrite K in H. destruct H; discriminate.
 Qed.
 
-Lemma probe_upd : forall accept cs ch r,
-  (forall x, cinv accept (getc cs x)) ->
-  ext cs (updc cs ch (apply_write r (snd (fst rr_probe)))) /\
-  (forall x, cinv accept (getc (updc cs ch (apply_write r (snd (fst rr_probe)))) x)).
+Lemma sockopt_zero_kind : forall c level opt, sockopt_result c level opt = PRZero -> c_kind c <> KPipe.
 Proof.
-  intros accept cs ch r C. split.
-  - apply ext_updc. intro c. apply apply_write_preserves.
-  - intro x. destruct (getc_updc_cases cs ch (apply_write r (snd (fst rr_probe))) x) as [E|(E & _ & E')].
-    + rewrite E. apply C.
-    + subst x. rewrite E'. apply probe_cinv. apply C.
+  intros c level opt H K. unfold sockopt_result in H. rewrite K in H.
+  destruct ((level =? os_SOL_SOCKET)%Z && (opt =? os_SO_TYPE)%Z)%bool; discriminate H.
 Qed.
 
 Lemma set_flags_upd : forall accept cs ch c',
@@ -362,60 +363,50 @@ Ltac fin t :=
       | cbn; rewrite ?Nat.eqb_refl; reflexivity
       | cbn; repeat split; intros; try discriminate; reflexivity ]).
 
-Lemma Inv_register : forall accept st g sig ch o, Inv accept st -> Inv accept (register accept st g sig ch o).
+Lemma Inv_register : forall accept st g sig ch o, Inv accept st -> Inv accept (register accept rr_probe st g sig ch o).
 Proof.
   intros accept st g sig ch o I.
-  unfold register, rr_probe, rr_send_pats, rr_then, rr_else, rr_after, register_conv.
+  unfold register, run_probe, rr_probe, rr_send_pats, rr_then, rr_else, rr_after, register_conv.
   set (id := length (regs st)).
-  pose proof (send_result_kind accept (clock st) (getc (chans st) ch) 0%Z 64%Z) as SK.
-  set (r := sys_result accept (clock st) (getc (chans st) ch) SysSend 0%Z 64%Z) in *.
-  destruct (probe_upd accept (chans st) ch r (inv_chan accept st I)) as [E1 C1].
-  change (snd (fst rr_probe)) with 0%Z in E1, C1.
-  set (cs1 := updc (chans st) ch (apply_write r 0%Z)) in *.
-  assert (SendOk : r = WOk \/ r = WAgain -> reg_ok cs1 (mkReg sig ch Send Active)).
-  { intros H _. cbn. split; [discriminate|]. intro K. exfalso. apply (SK H).
-    destruct (E1 ch) as [EK _]. rewrite <- EK. exact K. }
-  destruct r eqn:ER; cbn [pres_of existsb pat_matches orb app interp drop_if].
-  - (* probe answered 0: send *)
+  pose proof (sockopt_zero_kind (getc (chans st) ch) 1%Z 3%Z) as SK.
+  set (r := sockopt_result (getc (chans st) ch) 1%Z 3%Z) in *.
+  pose proof (ext_refl (chans st)) as E1. pose proof (inv_chan accept st I) as C1.
+  set (cs1 := chans st) in *.
+  assert (SendOk : r = PRZero -> reg_ok cs1 (mkReg sig ch Send Active)).
+  { intros H _. cbn. split; [discriminate|]. intro K. exfalso. exact (SK H K). }
+  destruct r eqn:ER; cbn [existsb pat_matches orb app interp drop_if].
+  - (* getsockopt answered 0: a socket, send *)
     destruct o; destruct g.
     all: try (fin ltac:(refine (Inv_push accept st cs1 (mkReg sig ch Send Active)
-                 [EOutcome id true; EProbe id ch SysSend 0%Z 64%Z WOk] _ I E1 C1 (SendOk (or_introl eq_refl)) _ _ _))).
+                 [EOutcome id true; EGetsockopt id ch 1%Z 3%Z PRZero] _ I E1 C1 (SendOk eq_refl) _ _ _))).
     all: fin ltac:(refine (Inv_push accept st cs1 (mkReg sig ch Write Rejected)
-                 [EOutcome id false; EClose id; EProbe id ch SysSend 0%Z 64%Z WOk] _ I E1 C1 (reg_ok_rejected _ _ _ _) _ _ _)).
-  - (* EAGAIN: send *)
-    destruct o; destruct g.
-    all: try (fin ltac:(refine (Inv_push accept st cs1 (mkReg sig ch Send Active)
-                 [EOutcome id true; EProbe id ch SysSend 0%Z 64%Z WAgain] _ I E1 C1 (SendOk (or_intror eq_refl)) _ _ _))).
-    all: fin ltac:(refine (Inv_push accept st cs1 (mkReg sig ch Write Rejected)
-                 [EOutcome id false; EClose id; EProbe id ch SysSend 0%Z 64%Z WAgain] _ I E1 C1 (reg_ok_rejected _ _ _ _) _ _ _)).
-  - (* (cannot happen with MSG_DONTWAIT, kept total) other: write *)
+                 [EOutcome id false; EClose id; EGetsockopt id ch 1%Z 3%Z PRZero] _ I E1 C1 (reg_ok_rejected _ _ _ _) _ _ _)).
+  - (* (getsockopt never says EAGAIN; kept total) write *)
     destruct (set_flags (getc cs1 ch)) as [c'|] eqn:SF.
     + destruct (set_flags_upd accept cs1 ch c' SF C1) as (E2 & C2 & N2).
-      pose proof (ext_trans _ _ _ E1 E2) as E12.
       assert (WOK : reg_ok (updc cs1 ch (fun _ => c')) (mkReg sig ch Write Active)).
       { intros _. cbn. split; [intros _; exact N2|reflexivity]. }
       destruct o; destruct g.
       all: try (fin ltac:(refine (Inv_push accept st (updc cs1 ch (fun _ => c')) (mkReg sig ch Write Active)
-                 [EOutcome id true; ESetFlags id ch true; EProbe id ch SysSend 0%Z 64%Z WBlocks] _ I E12 C2 WOK _ _ _))).
+                 [EOutcome id true; ESetFlags id ch true; EGetsockopt id ch 1%Z 3%Z PRWouldBlock] _ I E2 C2 WOK _ _ _))).
       all: fin ltac:(refine (Inv_push accept st (updc cs1 ch (fun _ => c')) (mkReg sig ch Write Rejected)
-                 [EOutcome id false; EClose id; ESetFlags id ch true; EProbe id ch SysSend 0%Z 64%Z WBlocks] _ I E12 C2 (reg_ok_rejected _ _ _ _) _ _ _)).
+                 [EOutcome id false; EClose id; ESetFlags id ch true; EGetsockopt id ch 1%Z 3%Z PRWouldBlock] _ I E2 C2 (reg_ok_rejected _ _ _ _) _ _ _)).
     + destruct g.
       all: fin ltac:(refine (Inv_push accept st cs1 (mkReg sig ch Write Rejected)
-                 [EOutcome id false; EClose id; ESetFlags id ch false; EProbe id ch SysSend 0%Z 64%Z WBlocks] _ I E1 C1 (reg_ok_rejected _ _ _ _) _ _ _)).
-  - (* ENOTSOCK / EBADF / ...: write *)
+                 [EOutcome id false; EClose id; ESetFlags id ch false; EGetsockopt id ch 1%Z 3%Z PRWouldBlock] _ I E1 C1 (reg_ok_rejected _ _ _ _) _ _ _)).
+  - (* ENOTSOCK / EBADF: not a socket, write *)
     destruct (set_flags (getc cs1 ch)) as [c'|] eqn:SF.
     + destruct (set_flags_upd accept cs1 ch c' SF C1) as (E2 & C2 & N2).
-      pose proof (ext_trans _ _ _ E1 E2) as E12.
       assert (WOK : reg_ok (updc cs1 ch (fun _ => c')) (mkReg sig ch Write Active)).
       { intros _. cbn. split; [intros _; exact N2|reflexivity]. }
       destruct o; destruct g.
       all: try (fin ltac:(refine (Inv_push accept st (updc cs1 ch (fun _ => c')) (mkReg sig ch Write Active)
-                 [EOutcome id true; ESetFlags id ch true; EProbe id ch SysSend 0%Z 64%Z WErr] _ I E12 C2 WOK _ _ _))).
+                 [EOutcome id true; ESetFlags id ch true; EGetsockopt id ch 1%Z 3%Z PROther] _ I E2 C2 WOK _ _ _))).
       all: fin ltac:(refine (Inv_push accept st (updc cs1 ch (fun _ => c')) (mkReg sig ch Write Rejected)
-                 [EOutcome id false; EClose id; ESetFlags id ch true; EProbe id ch SysSend 0%Z 64%Z WErr] _ I E12 C2 (reg_ok_rejected _ _ _ _) _ _ _)).
+                 [EOutcome id false; EClose id; ESetFlags id ch true; EGetsockopt id ch 1%Z 3%Z PROther] _ I E2 C2 (reg_ok_rejected _ _ _ _) _ _ _)).
     + destruct g.
       all: fin ltac:(refine (Inv_push accept st cs1 (mkReg sig ch Write Rejected)
-                 [EOutcome id false; EClose id; ESetFlags id ch false; EProbe id ch SysSend 0%Z 64%Z WErr] _ I E1 C1 (reg_ok_rejected _ _ _ _) _ _ _)).
+                 [EOutcome id false; EClose id; ESetFlags id ch false; EGetsockopt id ch 1%Z 3%Z PROther] _ I E1 C1 (reg_ok_rejected _ _ _ _) _ _ _)).
 Qed.
 
 Lemma drain_preserves : forall n c,
@@ -522,11 +513,11 @@ Proof.
       eapply Forall_impl; [|exact S4]. intros e (i & ch & s & fl & r & E & _ & _ & rg & RN & RA).
       exists i, ch, s, 1%Z, fl, r. split; [exact E|]. rewrite (Icl i rg RN). rewrite RA. reflexivity.
   - intros _. split; [exact S3|].
-    eapply Forall_impl; [|exact S4]. intros e (i & ch & s & fl & r & E & NB & W & _).
+    eapply Forall_impl; [|exact S4]. intros e (i & ch & s & fl & r & E & NB & WW & _).
     exists i, ch, s, fl, r. auto.
 Qed.
 
-Lemma Inv_step : forall accept st o, Inv accept st -> Inv accept (step accept st o).
+Lemma Inv_step : forall accept st o, Inv accept st -> Inv accept (step accept rr_probe st o).
 Proof.
   intros accept st o I. destruct o; cbn [step].
   - apply Inv_register. exact I.
@@ -535,7 +526,7 @@ Proof.
   - apply Inv_unregister. exact I.
 Qed.
 
-Lemma Inv_run_from : forall accept h st, Inv accept st -> Inv accept (run_from accept st h).
+Lemma Inv_run_from : forall accept h st, Inv accept st -> Inv accept (run_from accept rr_probe st h).
 Proof.
   intros accept. induction h as [|o t IH]; intros st I; [exact I|].
   cbn. apply IH. apply Inv_step. assumption.
@@ -544,13 +535,14 @@ Qed.
 Lemma count_wake_map_foreign : forall l, count_wake (map UForeign l) = 0.
 Proof. induction l; [reflexivity|]. unfold count_wake in *. cbn. exact IHl. Qed.
 
-Lemma Inv_init : forall accept w, Inv accept (init w).
+Lemma Inv_init : forall accept w, (W -> world_in_bytes w) -> Inv accept (init w).
 Proof.
-  intros accept w. constructor; cbn [init chans regs evs].
+  intros accept w HWw. constructor; cbn [init chans regs evs].
   - intro ch. unfold getc.
     destruct (nth_in_or_default ch (map init_chan w) invalid_chan) as [H|H].
-    + apply in_map_iff in H. destruct H as (s & E & _). rewrite <- E.
-      intros _ _. cbn. rewrite count_wake_map_foreign. split; lia.
+    + apply in_map_iff in H. destruct H as (s & E & IN). rewrite <- E.
+      intros _ HW _. cbn. rewrite count_wake_map_foreign. split; [lia|]. split; [lia|].
+      intro D. apply Forall_map. unfold nonempty_unit. cbn. apply (HWw HW s IN D).
     + rewrite H. apply cinv_invalid.
   - constructor.
   - intros id r H. destruct id; discriminate H.
@@ -558,5 +550,7 @@ Proof.
   - exact I.
 Qed.
 
-Lemma Inv_run : forall accept w h, Inv accept (run accept w h).
-Proof. intros. apply Inv_run_from. apply Inv_init. Qed.
+Lemma Inv_run : forall accept w h, (W -> world_in_bytes w) -> Inv accept (run accept w h).
+Proof. intros. apply Inv_run_from. apply Inv_init. assumption. Qed.
+
+End Guard.
